@@ -638,7 +638,9 @@ def digest(raw):
 # running the probe
 STEPS = {"C01": ["dump built", "encode", "decode", "reencode"],
          "C02": ["dump built", "encode"],
-         "C11": ["dump built", "encode", "clone", "copy", "move"]}
+         "C11": ["dump built", "encode", "clone", "copy", "move"],
+         # every other C11 message: the source of clone / copy_legal / move_legal is the message the factory decoded
+         "C11dec": ["dump built", "encode", "clone", "copy", "decode", "usedec", "clone", "copy", "move"]}
 
 
 def commands(sp, prop):
@@ -648,7 +650,10 @@ def commands(sp, prop):
             out.append("f %s %d %s" % (o[1], o[2], o[3].encode("latin-1").hex() or "-"))
         else:
             out.append("e %s %d" % (o[1], o[2]))
-    return out + STEPS[prop] + ["end"]
+    steps = STEPS[prop]
+    if prop == "C11" and (len(sp.ops) + sum(len(str(o[-1])) for o in sp.ops)) % 2:
+        steps = STEPS["C11dec"]
+    return out + steps + ["end"]
 
 
 def _run_batch(binary, env, batch, prop, wd):
@@ -745,7 +750,7 @@ def to_monitor(sp, evs, prop):
     """Project the probe's events of one execution onto the monitor alphabet."""
     empty = {"h": [], "b": [], "t": []}
     out = [{"e": "Reset", "prop": prop, "sch": sp.sch, "mt": sp.mt,
-            "want": sp.want if prop == "C01" else empty,
+            "want": sp.want if prop in ("C01", "C11") else empty,
             "neg": sorted(sp.neg), "late": sorted(sp.late), "big": sorted(sp.big), "hint": "+".join(sorted(sp.hints))}]
     bad = 0
     ok = True
@@ -758,7 +763,7 @@ def to_monitor(sp, evs, prop):
         elif e == "Tree":
             out.append({"e": "Built", "ok": ok and ev.get("ok", False), "bad": bad,
                         "tree": ev.get("tree", empty) if prop != "C02" else empty})
-        elif e in ("Encode", "Reencode", "Clone"):
+        elif e in ("Encode", "Reencode", "Clone", "CloneDec"):
             m = {"e": e, "ok": bool(ev.get("ok")), "len": 0, "h1": 0, "h2": 0}
             if ev.get("ok"):
                 rawb = bytes.fromhex(ev["hex"])
@@ -769,10 +774,10 @@ def to_monitor(sp, evs, prop):
                 m["toks"] = []
             if "exc" in ev:
                 m["exc"] = ev["exc"][:120]
-            if e == "Clone":
+            if e in ("Clone", "CloneDec"):
                 m["tree"] = ev.get("tree", empty)
             out.append(m)
-        elif e in ("Decode", "CopyLegal", "MoveLegal"):
+        elif e in ("Decode", "CopyLegal", "MoveLegal", "CopyLegalDec", "MoveLegalDec"):
             m = {"e": e, "ok": bool(ev.get("ok")), "tree": ev.get("tree", empty), "excid": ""}
             if "exc" in ev:
                 m["exc"] = ev["exc"][:120]
